@@ -2141,6 +2141,14 @@ class Engine:
                     ns.__dict__["old_" + pname] = mutstate.snapshot(pval)  # pre-state of a materialised (mutable) argument
                 elif getattr(contract.impl, "publishes_args", False):
                     mutstate.publish(self, ctx, pval)  # a fresh immutable object handed to a constructor that keeps it
+        if getattr(contract.impl, "publishes_args", False):
+            for pname, pval in list(nsd.items()):
+                if pname != "self" and isinstance(pval, PyList):  # a literal list of fresh immutable objects that is kept
+                    from . import mutstate
+
+                    for it in pval.items:
+                        if isinstance(it, Obj) and it.fields is not None and not self._owns_state(it.cls):
+                            mutstate.publish(self, ctx, it)
         ns.__dict__["old"] = make_old_view(ns, ns.__dict__.get("old"))
         callee = short(contract.qualname)
         for label, c in self.run_spec(ctx, lambda: contract.clauses("pre", ns)):
